@@ -626,6 +626,7 @@ func runC11(c *eng.Ctx) {
 	defer func() {
 		runC11FailedCreation(c, cr)
 		runC11SiblingChurn(c, cr)
+		RunClosePanicOrder(c, cr.next)
 		RunPassthrough(c, cr.next)
 		RunChainedOutputs(c, cr.next)
 		if C11Concurrent != nil {
